@@ -27,11 +27,13 @@ Viol(o) ==
      \cup (IF bind /\ only \in {"both", "lex"} THEN V(lx.r = "ok" /\ f.r = "ok", "lexical-rejects") \cup V(f.r = "ok" => J2N(f.v) = target, "fold-other-value") ELSE {})
      \cup (IF HasF(o.o, "me") /\ bind THEN V(o.o.me.r = "ok" /\ J2N(o.o.me.v) = target, "enum-macro")
                                             \cup V(o.o.ml.r = "ok" /\ lx.r = "ok" /\ J2LN(o.o.ml.v) = J2LN(lx.v), "lexical-macro") ELSE {})
+\* pipe_l (text written by the lexical formatter for a lexical value): the two pipelines disagreeing on acceptance is reported as drift
 Drift(o) ==
   IF HasF(o.o, "build") \/ HasF(o.c, "exotic") THEN {} ELSE
   LET m == Parse(Chars(o.o.s)) IN
-  IF m.r # o.o.e.r /\ o.o.e.r # "panic" THEN {"model-verdict"}
-  ELSE IF m.r = "ok" /\ o.o.e.r = "ok" /\ m.v # J2N(o.o.e.v) THEN {"model-value"} ELSE {}
+  (IF m.r # o.o.e.r /\ o.o.e.r # "panic" THEN {"model-verdict"}
+   ELSE IF m.r = "ok" /\ o.o.e.r = "ok" /\ MaskN(m.v, m.v) # MaskN(J2N(o.o.e.v), m.v) THEN {"model-value"} ELSE {})
+  \cup (IF o.c.op = "pipe_l" /\ (o.o.e.r = "ok") # (o.o.f.r = "ok") THEN {"pipelines-disagree-on-acceptance"} ELSE {})
 
 Init == l = 1
 Next == /\ l <= Len(Obs)
